@@ -119,13 +119,15 @@ def _edit_list(L, b, a):
         return s[1]
     for j, (x, y) in enumerate(zip(sb, sa)):
         gy = geom(y)
+        if gy[0] == 'GPlane' and geom(x)[0] == 'GStd':
+            es.append(f'ESetFlat {j}%nat')
         if gy[0] != 'GPlane':
             es.append(f'ESetRadius {j}%nat {L.cfl(gy[2])}')
             es.append(f'ESetConic {j}%nat {L.cfl(gy[3])}')
         if gy[0] == 'GEven':
             for i, c in enumerate(gy[6]):
                 es.append(f'ESetCoeff {j}%nat {i}%nat {L.cfl(c)}')
-        es.append(f'ESetZ {j}%nat {L.cfl(gy[1][3])}')
+        es.append(f'ESetPos {j}%nat {L.cfl(gy[1][1])} {L.cfl(gy[1][2])} {L.cfl(gy[1][3])}')
         if y[0] == 'SStandard' and y[5] is not None:
             es.append(f'ESetPhysAperture {j}%nat {L.cfl(y[5][1])} {L.cfl(y[5][2])}')
         if y[0] == 'SImage' and y[3] is not None:
